@@ -43,6 +43,8 @@ type simConn struct {
 	nReads     int
 	closedAtStep int
 	wrDeadline time.Time
+	firstWriteErrSeq int64
+	firstWriteErrAt  time.Duration
 }
 
 func newSimConn(w *world, side int, name string) *simConn {
@@ -100,6 +102,10 @@ func (c *simConn) Write(b []byte) (int, error) {
 	}
 	if c.writeErr != nil {
 		err := c.writeErr
+		if c.firstWriteErrSeq == 0 {
+			c.firstWriteErrSeq = c.w.nextSeq()
+			c.firstWriteErrAt = c.w.now()
+		}
 		c.mu.Unlock()
 		return 0, err
 	}
